@@ -1,9 +1,13 @@
 (* C20 - equivalent spellings of a pattern behave identically.
-   Proved at the specification level: the laws hold for the denoted language (same set of end
-   positions from every start position, for every input and flags).  Partial: the transport to the
-   model's is_match needs C01; the property is otherwise decided by rewriting generated patterns and
-   comparing both spellings on the code and on the model. *)
-From RX Require Import Base.Prelude Spec.Syntax Spec.Sem Proofs.LeafFacts.
+   Proved at the specification level: every law the property lists holds for the denoted language
+   (same set of end positions from every start position, for every input and flags; x = [x] and
+   [xy] = (?:x|y) without flag i - with it the two sides use the class closure and the literal
+   comparison, which C11 relates on the clean alphabets).  The quantifier laws rest on
+   QuantFacts.quant_ends_spec (r{n,m} ends exactly at the positions reachable by k rounds of r,
+   n <= k <= m).  Partial: the transport to the code's is_match is C01 (proved on the fragment with
+   fixed-length repeats); otherwise decided by rewriting generated patterns and comparing both
+   spellings on the code and on the model. *)
+From RX Require Import Base.Prelude Spec.Syntax Spec.Sem Proofs.LeafFacts Proofs.QuantFacts Proofs.QuantLaws.
 
 Theorem C20_wrap_noncapturing_spec : forall fl s r i, ends fl s (RNc r) i = ends fl s r i.
 Proof. exact law_nc. Qed.
@@ -14,7 +18,40 @@ Proof. exact law_alt_idem. Qed.
 Theorem C20_alt_commutative_spec : forall fl s a b i, same_ends (ends fl s (RAlt [a; b]) i) (ends fl s (RAlt [b; a]) i).
 Proof. exact law_alt_comm. Qed.
 
+(* r{1} = r,  r{0} = empty,  r+ = rr*,  r{n,} = r^n r*,  r{n,m} = r^n ((?:r)?)^(m-n) *)
+Theorem C20_quant_one_spec : forall fl s r g, quant_wf r -> same_lang fl s (RQuant r 1 (Some 1%N) g) r.
+Proof. exact law_one. Qed.
+Theorem C20_quant_zero_spec : forall fl s r g, quant_wf r -> same_lang fl s (RQuant r 0 (Some 0%N) g) (RSeq []).
+Proof. exact law_zero. Qed.
+Theorem C20_plus_spec : forall fl s r g, quant_wf r -> same_lang fl s (RQuant r 1 None g) (RSeq [r; RQuant r 0 None g]).
+Proof. exact law_plus. Qed.
+Theorem C20_at_least_spec : forall fl s r (k : nat) g, quant_wf r ->
+  same_lang fl s (RQuant r (N.of_nat k) None g) (RSeq (repeat r k ++ [RQuant r 0 None g])).
+Proof. exact law_at_least. Qed.
+Theorem C20_bounded_spec : forall fl s r (k d : nat) g, quant_wf r ->
+  same_lang fl s (RQuant r (N.of_nat k) (Some (N.of_nat (k + d))) g)
+                 (RSeq (repeat r k ++ repeat (RQuant r 0 (Some 1%N) g) d)).
+Proof. exact law_bounded. Qed.
+(* (?:r|s)t = rt|st;  x = [x] and [xy] = (?:x|y) *)
+Theorem C20_distribute_spec : forall fl s r1 r2 t,
+  same_lang fl s (RSeq [RNc (RAlt [r1; r2]); t]) (RAlt [RSeq [r1; t]; RSeq [r2; t]]).
+Proof. exact law_distrib. Qed.
+Theorem C20_char_class_spec : forall fl s c, s_i fl = false ->
+  forall i, ends fl s (RChar c) i = ends fl s (RCls (CGroup false [IChar c] None)) i.
+Proof. exact law_char_class. Qed.
+Theorem C20_class_alt_spec : forall fl s x y, s_i fl = false ->
+  same_lang fl s (RCls (CGroup false [IChar x; IChar y] None)) (RNc (RAlt [RChar x; RChar y])).
+Proof. exact law_class_alt. Qed.
+
 Print Assumptions C20_wrap_noncapturing_spec.
 Print Assumptions C20_group_to_noncapturing_spec.
 Print Assumptions C20_alt_idempotent_spec.
 Print Assumptions C20_alt_commutative_spec.
+Print Assumptions C20_quant_one_spec.
+Print Assumptions C20_quant_zero_spec.
+Print Assumptions C20_plus_spec.
+Print Assumptions C20_at_least_spec.
+Print Assumptions C20_bounded_spec.
+Print Assumptions C20_distribute_spec.
+Print Assumptions C20_char_class_spec.
+Print Assumptions C20_class_alt_spec.
